@@ -79,26 +79,28 @@ def utf8DecAux : Nat → List Nat → Str
 
 def utf8Dec (bs : List Nat) : Str := utf8DecAux bs.length bs
 
-def utf8Codec : Codec := ⟨fun s => some (utf8Enc s), utf8Dec⟩
+/-- UTF-8: strings of code points (a Rust `str` holds nothing else) always encode -/
+def utf8Codec : Codec :=
+  ⟨fun s => if s.all (· < 0x110000) then some (utf8Enc s) else none, utf8Dec⟩
 
 /-- how far the model knows a set's codec -/
 inductive Known where
   | page (p : Page)
   | utf8
-  | opaque
+  | ext
 deriving Repr
 
 def known (cs : Cs) : Known :=
   match pageOf cs with
   | some p => .page p
-  | none => if cs.encBinding = .UTF_8 ∧ cs.decBinding = .UTF_8 then .utf8 else .opaque
+  | none => if cs.encBinding = .UTF_8 ∧ cs.decBinding = .UTF_8 then .utf8 else .ext
 
 /-- the codec environment: the known codecs, `ext` for the rest -/
 def codecOf (ext : Cs → Codec) (cs : Cs) : Codec :=
   match known cs with
   | .page p => pageCodec p
   | .utf8 => utf8Codec
-  | .opaque => ext cs
+  | .ext => ext cs
 
 /-! ### elements -/
 
